@@ -33,6 +33,35 @@ SEEDS = {
  'c13r2-optelem-wrap': ('C13', 'optional element size in [2^64 - length, 2^64 - 1] with the header re-sealed: the cursor moves backwards and metadata is read from other fields'),
  'c16r2-empty-flush': ('C16', 'uncompressed-source flag and a boundary candidate on the first byte of a write call: that segmentation fails while others succeed'),
  'c17r2-carryover-free': ('C17', 'a multipart part header spread over three or more write callbacks: carried-over buffer freed and used again'),
+ 'c01r3-short-write-loop-pipe': ('C01', 'two or more consecutive short writes inside one write_data() call (pipe destination, interrupted writer)'),
+ 'c02r3-header-only-skips-data-check': ('C02', 'identifier switched to the detached-header magic plus truncation in the middle of a chunk'),
+ 'c03r3-import-dict-error-free': ('C03', 'a dictionary that zstd refuses after it was handed over: comp_init fails, buffer freed twice'),
+ 'c04r2-copy-seek-cursor': ('C04', 'source with an intact header but a truncated body, and a target whose chunk order differs: chunks written at a stale offset are marked valid'),
+ 'c04r3-reset-keeps-tgt-check': ('C04', 'a range response that stops mid-chunk, then reset and a new request on the same zckDL'),
+ 'c05r3-nested-failure-short-count': ('C05', 'plain single-range body, a damaged chunk whose last byte arrives in an invocation that began in an earlier chunk'),
+ 'c06r2-header-retry-skip': ('C06', 'first zck_read_header() fails recoverably before the comparison (hash_init OOM), the caller retries on the same context'),
+ 'c06r3-id-version-byte': ('C06', 'fifth identifier byte lower than the character 1'),
+ 'c07r2-pin-length-lead-read': ('C07', 'SHA-512/128 header hash (lead shorter than the 25 bytes read ahead) and a pinned total header length'),
+ 'c07r3-pin-buffer-handover': ('C07', 'pinned context reused: zck_validate_lead() succeeds once, then another lead is read'),
+ 'c08r3-skip-target-seek': ('C08', 'truncated source and a target whose chunk order differs'),
+ 'c09r2-hash-reinit-moved': ('C09', 'a validity scan that finds a bad chunk, then completion of the target and a read to end on the same context'),
+ 'c09r3-scan-stops-at-eof': ('C09', 'target truncated before its last chunk; same context scanned twice or 0/-1 distinguished'),
+ 'c10r3-limit-before-add': ('C10', 'max_ranges == 0 with at least one missing chunk'),
+ 'c11r2-scan-fail-fast': ('C11', 'interrupted delta update restarted without the source: chunks behind the half-written one are fetched again'),
+ 'c11r3-truncated-chunk-keeps-all-good': ('C11', 'interruption in the middle of the last chunk with every other chunk valid'),
+ 'c12r3-short-write-loop': ('C12', 'two consecutive short writes followed by a complete one'),
+ 'c13r3-byte-typed-digit': ('C13', 'any compressed integer >= 2^31 (chunk of 2 GiB or more)'),
+ 'c14r2-comp-data-clamp': ('C14', 'stored data of a chunk whose stored form is larger than its content (incompressible or tiny chunk)'),
+ 'c14r3-data-loc-reset-guarded': ('C14', 'compression type none and a second chunk request on the same context'),
+ 'c15r2-short-read-on-bad-chunk': ('C15', 'one read request that straddles verified data and a chunk that fails its checksum'),
+ 'c15r3-xor-fold-compare': ('C15', 'a corruption whose digest differs from the index digest by bytes that cancel under XOR (1 in 256)'),
+ 'c16r3-below-min-fast-path': ('C16', 'a write call that starts 0..46 bytes before the minimum chunk size after only short calls, boundary within 47 bytes past it'),
+ 'c18r2-sha1-final-pad': ('C18', 'bundled build, SHA-1 selected, a hashed message whose length is 56 mod 64'),
+ 'c18r3-sha1-static-workspace': ('C18', 'bundled build, SHA-1, two threads hashing at once'),
+ 'c19r2-temp-fd-double-close': ('C19', 'two writer threads: one allocates a descriptor while the other is between the two close() of the same number'),
+ 'c19r3-strtok-header-split': ('C19', 'two threads feeding Content-Type header lines at the same time'),
+ 'c20r2-add-overflow-guard': ('C20', 'a terminated ten-byte encoding whose tenth byte is 0x82..0xff'),
+ 'c20r3-unterminated-tenth-byte': ('C20', 'ten bytes without a stop bit whose tenth byte is 0x00 or 0x01'),
 }
 PROPS = ['C%02d' % i for i in range(1, 21)]
 def sh(cmd, **kw):
